@@ -8,6 +8,7 @@ import (
 	"sort"
 	"strings"
 	"time"
+	"unsafe"
 
 	"github.com/esimov/gogu/cache"
 	"github.com/esimov/gogu/vrtshim/vrt"
@@ -349,8 +350,10 @@ func c08janGraph(arg string, def int) {
 	name := fmt.Sprintf("cache+janitor state graph (default=%d, interval=%d): driver{Set|Update|Delete|Get|Advance 2}*", def, janInterval)
 	c.st.Scenarios++
 	type monitor struct {
-		ent       *janEnt // model of key x (nil: not stored); deadlines absolute, exact (the driver is the only writer)
-		op        string  // the operation the driver is in the middle of (its arguments live in locals: part of the state)
+		ent       *janEnt             // model of key x (nil: not stored); deadlines absolute, exact (the driver is the only writer)
+		op        string              // the operation the driver is in the middle of (its arguments live in locals: part of the state)
+		held      *cache.Item[string] // the item the last successful Get handed out: the caller keeps it ...
+		heldVal   string              // ... and what it said then (it must say so for ever)
 		viol, det string
 		trace     []string
 	}
@@ -399,7 +402,16 @@ func c08janGraph(arg string, def int) {
 			if mm.ent != nil {
 				mv = mm.ent.val
 			}
-			return fmt.Sprintf("%s|%s%s|%s|next-v%d|busy%d", impl, me, mv, mm.op, (*valp+1)%2, *busyp)
+			held := "-"
+			if mm.held != nil {
+				held = mm.heldVal + "/detached"
+				if iv := seqmc.Get(ca, "items"); iv.IsValid() && iv.Kind() == reflect.Map {
+					if cur := iv.MapIndex(reflect.ValueOf("x")); cur.IsValid() && cur.Kind() == reflect.Pointer && cur.Pointer() == uintptr(unsafe.Pointer(mm.held)) {
+						held = mm.heldVal + "/stored"
+					}
+				}
+			}
+			return fmt.Sprintf("%s|%s%s|%s|next-v%d|busy%d|held:%s", impl, me, mv, mm.op, (*valp+1)%2, *busyp, held)
 		})
 		// the janitor starts and creates its ticker at time 0 (ticks at 4, 8, ...); a janitor that starts
 		// late is the business of the script-based scenarios above
@@ -414,6 +426,12 @@ func c08janGraph(arg string, def int) {
 			// fairness: the janitor is not starved for more than one sweep (a tick it has not handled
 			// yet is fine, an unbounded backlog is not a state the property talks about)
 			t := now()
+			if mm.held != nil {
+				if v := mm.held.Val(); v != mm.heldVal {
+					mm.viol, mm.det = "Cache+janitor.graph/Get/returned-item-changes-later", fmt.Sprintf("the item a Get handed out said %q then and says %q at time %d (history %v)", mm.heldVal, v, t, mm.trace)
+					break
+				}
+			}
 			if vrt.ThreadParked(janitor) {
 				lastIdle = t
 			}
@@ -487,6 +505,10 @@ func c08janGraph(arg string, def int) {
 				case dead && err == nil:
 					mm.viol, mm.det = "Cache+janitor.graph/Get/missing-or-expired-entry-returned", fmt.Sprintf("Get at %d = %q although the key is not stored or expired (%v)", t, it.Val(), e0)
 				}
+				if err == nil && it != nil {
+					mm.held, mm.heldVal = it, it.Val()
+				}
+				mm.trace = append(mm.trace, fmt.Sprintf("Get@%d", t))
 			case 6:
 				vrt.Advance(2 * unit) // the janitor sweeps concurrently with whatever the driver does next
 			}
